@@ -339,10 +339,45 @@ func floats(s string) []float32 {
 
 func point(f []float32) *dagazpb.Point { return &dagazpb.Point{X: f[0], Y: f[1], Z: f[2]} }
 
-// QuadPB parses "cx,cy,cz,ex,ey,ez,mc".
+// QuadPB parses "cx,cy,cz,ex,ey,ez,mc"; "!" alone is a missing sample, a leading "!c," / "!e," drops the
+// centre / the extents (sub-messages a client may simply not set).
 func QuadPB(s string) *dagazpb.Quad {
+	if s == "!" {
+		return nil
+	}
+	noC, noE := strings.HasPrefix(s, "!c,"), strings.HasPrefix(s, "!e,")
+	if noC || noE {
+		s = s[3:]
+	}
 	f := floats(s)
-	return &dagazpb.Quad{Center: point(f[0:3]), Extents: point(f[3:6]), MergeCount: uint32(f[6])}
+	q := &dagazpb.Quad{Center: point(f[0:3]), Extents: point(f[3:6]), MergeCount: uint32(f[6])}
+	if noC {
+		q.Center = nil
+	}
+	if noE {
+		q.Extents = nil
+	}
+	return q
+}
+
+// geoPoints parses "a,b,c,d,e,f" into two points; a leading "!1," / "!2," / "!0," drops the first / the
+// second / both.
+func geoPoints(s string) (*dagazpb.Point, *dagazpb.Point) {
+	drop := ""
+	if strings.HasPrefix(s, "!") {
+		drop, s = s[:2], s[3:]
+	}
+	f := floats(s)
+	a, b := point(f[0:3]), point(f[3:6])
+	switch drop {
+	case "!1":
+		a = nil
+	case "!2":
+		b = nil
+	case "!0":
+		a, b = nil, nil
+	}
+	return a, b
 }
 
 // Proto builds the protobuf message the client would send. `serial` is put into the message
@@ -429,13 +464,16 @@ func (r *Req) Proto(globalID func(uint32) string, ts *timestamppb.Timestamp) (hw
 		}
 		return m, nil
 	case "groundPlane":
-		f := floats(r.Geo)
-		return &dagazpb.DagazGetGroundPlaneRequest{Type: dagazpb.MsgType_MSG_TYPE_DAGAZ_GET_GROUND_PLANE_REQUEST, Timestamp: ts,
-			RequestId: r.Rid, Ray: &dagazpb.Ray{From: point(f[0:3]), To: point(f[3:6])}}, nil
+		m := &dagazpb.DagazGetGroundPlaneRequest{Type: dagazpb.MsgType_MSG_TYPE_DAGAZ_GET_GROUND_PLANE_REQUEST, Timestamp: ts, RequestId: r.Rid}
+		if r.Geo != "!" { // "!": no ray at all
+			a, b := geoPoints(r.Geo)
+			m.Ray = &dagazpb.Ray{From: a, To: b}
+		}
+		return m, nil
 	case "region":
-		f := floats(r.Geo)
+		a, b := geoPoints(r.Geo)
 		return &dagazpb.DagazGetRegionRequest{Type: dagazpb.MsgType_MSG_TYPE_DAGAZ_GET_REGION_REQUEST, Timestamp: ts,
-			RequestId: r.Rid, Min: point(f[0:3]), Max: point(f[3:6])}, nil
+			RequestId: r.Rid, Min: a, Max: b}, nil
 	case "debugInfo":
 		return &dagazpb.DagazGetDebugInfoRequest{Type: dagazpb.MsgType_MSG_TYPE_DAGAZ_GET_DEBUG_INFO_REQUEST, Timestamp: ts,
 			RequestId: r.Rid}, nil
